@@ -107,6 +107,31 @@ def _rand_prog(r, maxlen):
     return prog
 
 
+def _pen_stays_prog(r, num, zero):
+    """a curve, then a command that leaves the pen exactly where the curve ended (zero relative moveto / lineto, an arc that
+    ends on the current point, a closepath or moveto back to a start the curve itself returned to), then S/T: the SVG rules
+    say the smooth command must NOT reflect the old control point (the previous command is not a curve command)"""
+    px, py = num(), num()
+    prog = [('M', [px, py])]
+    kind = r.choice('CQ')
+    stay = r.choice(['m00', 'a00', 'l00', 'Zloop', 'Mloop', 'h0', 'none'])
+    endx, endy = (px, py) if stay in ('Zloop', 'Mloop') else (num(), num())
+    if kind == 'C':
+        prog.append(('C', [num(), num(), num(), num(), endx, endy]))
+    else:
+        prog.append(('Q', [num(), num(), endx, endy]))
+    if r.random() < 0.3 and stay not in ('Zloop', 'Mloop'):
+        prog.append(({'C': 's', 'Q': 't'}[kind], [num() for _ in range(4 if kind == 'C' else 2)]))
+    prog += {'m00': [('m', [zero, zero])], 'a00': [('a', [num() * 0 + 30, num() * 0 + 30, zero, zero, zero + 1, zero, zero])],
+             'l00': [('l', [zero, zero])], 'Zloop': [(r.choice('Zz'), [])], 'Mloop': [('M', [px, py])],
+             'h0': [('h', [zero])], 'none': []}[stay]
+    sm = r.choice('SsTt')
+    prog.append((sm, [num() for _ in range(ARITY[sm.upper()])]))
+    if r.random() < 0.4:
+        prog.append((None, [num() for _ in range(ARITY[sm.upper()])]))
+    return prog, stay
+
+
 def correspond(ctx):
     spt = ctx.spt
     r = ctx.rng('corr')
@@ -124,6 +149,8 @@ def correspond(ctx):
             progs.append(prog)
     for it in range(ctx.n(400, 4000)):
         progs.append(_rand_prog(r, 12))
+    for it in range(ctx.n(150, 1500)):
+        progs.append(_pen_stays_prog(r, lambda: _num(r), Fr(0))[0])
     # malformed stream: missing arguments, leading number, letters where numbers are expected
     for it in range(ctx.n(150, 1500)):
         prog = _rand_prog(r, 5)
@@ -382,7 +409,10 @@ def sample(ctx, budget=1.0, hint=None, broken=None):
             return r.choice([float(r.randint(-9, 9)), r.uniform(-10, 10), 0.0, 1e-5, 123456.789])
         prog = [(r.choice('Mm'), [fnum(), fnum()])]
         prev = prog[0][0]
-        for _ in range(r.randint(1, 10)):
+        pen_stays = r.random() < 0.15
+        if pen_stays:
+            prog, _stay = _pen_stays_prog(r, fnum, 0.0)
+        for _ in range(0 if pen_stays else r.randint(1, 10)):
             l = r.choice(LETTERS)
             implicit = False
             if r.random() < 0.3 and prev not in 'Zz':
@@ -443,7 +473,7 @@ def sample(ctx, budget=1.0, hint=None, broken=None):
             fail('parse_path/arc-flags-without-separators', 'arc flags written without separators are not tokenised as single characters', {'d': d},
                  'exception or wrong segments', 'one Arc', 'svgpathtools.parse_path(%r)' % d)
     return {'evaluations': n_eval, 'distinct_nontrivial': len(nontriv), 'failures': fails, 'samples': samples,
-            'rule': 'random programs over the 20 letters (1..10 commands after the moveto, implicit repetitions, relative arcs ending on the current point, zero radii), '
+            'rule': 'random programs over the 20 letters (1..10 commands after the moveto, implicit repetitions, relative arcs ending on the current point, zero radii; 15%: a curve, a command that leaves the pen in place - zero m/l/h, omitted arc, Z or M back to the start - then S/T), '
                     'number classes int/half/tiny/huge/mixed, spellings plain/comma/comma+spaces/multi-space/sign-as-separator/exponent/leading-dot/leading-dot-with-exponent; '
                     'compared with an independent reference interpreter of the SVG path grammar. distinct = distinct (number class, spelling, letter set)'}
 
